@@ -20,7 +20,7 @@ def run(tier, seed, replay=None):
     except vbuild.BuildError as e:
         ob["ok"] = False
         ob["failures"].append("correspondence harness does not compile against the current source: " + str(e)[-400:])
-        return ck.finish(ob, rule="-")
+        return ck.finish(ob, rule="links: for every shipped description the raw calculator file and the raw sub-package files are spliced by the model (resolveLinks) and compared with LoadDefaults of the code. -")
     if not ob.get("driver_ok", True):
         return ck.finish(ob, rule="-")
     if False and replay:
